@@ -791,12 +791,13 @@ Proof.
   - (* CClose *) cbn [addresses] in Ha. apply quietp_cons. split; [exact Ha|reflexivity].
 Qed.
 
-Lemma handler_keeps s c : (match c with CPrepare _ _ => next_stmt s <> id | _ => True end) ->
+Lemma handler_keeps s c : addresses c = false -> (match c with CPrepare _ _ => next_stmt s <> id | _ => True end) ->
   find_stmt id (stmts (fst (handler BATCH s c))) = find_stmt id (stmts s).
 Proof.
-  intros Hn. destruct c as [| | | | | | |n sz|i|i cur|i n szf|i|i| | |m]; cbn [handler fst]; try reflexivity.
+  intros Ha Hn. destruct c as [| | | | | | |n sz|i|i cur|i n szf|i|i| | |m]; cbn [handler fst]; try reflexivity.
   - cbn [stmts set_stmts]. rewrite find_put. destruct (N.eqb_spec (next_stmt s) id); [contradiction|reflexivity].
-  - destruct (find_stmt i (stmts s)); reflexivity.
+  - cbn [addresses] in Ha. destruct (find_stmt i (stmts s)); cbn [fst stmts set_stmts]; [|reflexivity].
+    rewrite find_put, Ha. reflexivity.
   - destruct (find_stmt i (stmts s)) as [v|]; [|reflexivity]. destruct (st_cursor v) as [items|]; [|reflexivity].
     destruct (fetch_plan BATCH (S (length items)) i items (st_inner v) 0 n (st_inner v)). reflexivity.
   - destruct (find_stmt i (stmts s)); reflexivity.
@@ -820,7 +821,7 @@ Proof.
   { rewrite E. apply (run_okF B BATCH id c0). unfold QrF.
     pose proof (handler_fields BATCH s1 c) as HF. cbn [fst] in HF. destruct HF as (_ & _ & _ & _ & _ & F6 & _).
     split; [exact F6|]. split; [|now apply handler_quiet].
-    rewrite (handler_keeps s1 c); [reflexivity|]. destruct c; auto. }
+    rewrite (handler_keeps s1 c Hadr); [reflexivity|]. destruct c; auto. }
   unfold r. cbn [exec]. destruct (step B BATCH s (EvPayload c)) as [s2 o1]. unfold ok3 in S1. cbn [fst snd] in S1.
   pose proof (exec_okF B BATCH id c0 evs _ s2 Ha S1) as S2.
   destruct (exec B BATCH s2 evs) as [s3 o2]. unfold ok3 in S2. cbn [fst snd] in *.
